@@ -140,6 +140,9 @@ def run(ctx: core.Ctx) -> int:
                            msg="helper on the prediction path is not side-effect free: " + "; ".join(f"{w.kind} {w.target} (line {w.line})" for w in ws),
                            line=ws[0].line if ws else None)
     ctx.note(f"PURE: {n_help} module-level helper(s) on the prediction path analysed")
+    _pos = _ast.parse("def f(c, b):\n    w = eigvalsh(c, overwrite_a=True)\n    np.abs(b, out=b)\n    return w").body[0]
+    if len(effects.writes(_pos)) != 2:
+        ctx.error("PURE: built-in positive example (overwrite_a=True / out=<argument>) not recognised")
     ctx.floor("ARR-MM", scenarios.count(it, "ARR-MM", "process_model"), 2, "matrix products in process_model")
     ctx.floor("ARR-EW", scenarios.count(it, "ARR-EW", "process_model"), 1, "sums in process_model")
     ctx.floor("COV-FORM", n_form, 1, "returned covariance forms")
